@@ -116,8 +116,11 @@ func Run(sc Scenario) *Result {
 		BlockPublishUntilSubscriberAck: sc.Blocking,
 	}, watermill.NopLogger{})
 	var sub message.Subscriber = ps
+	// one decorator value applied to every layer (what Router.AddSubscriberDecorators does per handler): the layers must
+	// not share anything through it
+	dec := message.MessageTransformSubscriberDecorator(func(m *message.Message) {})
 	for i := 0; i < sc.Decorators; i++ {
-		d, _ := message.MessageTransformSubscriberDecorator(func(m *message.Message) {})(sub)
+		d, _ := dec(sub)
 		sub = d
 	}
 
@@ -149,6 +152,20 @@ func Run(sc Scenario) *Result {
 		mu.Unlock()
 		return m, u
 	}
+	// reMsg re-registers an object the publisher already used under a new UUID, with its current contents as the original
+	reMsg := func(m *message.Message) (*message.Message, int) {
+		u := int(atomic.AddInt64(&nextU, 1))
+		m.UUID = "m" + strconv.Itoa(u)
+		o := &orig{uuid: m.UUID, payload: append([]byte(nil), m.Payload...), meta: map[string]string{}, metaPtr: reflect.ValueOf(m.Metadata).Pointer()}
+		for k, v := range m.Metadata {
+			o.meta[k] = v
+		}
+		mu.Lock()
+		originals[u] = o
+		mu.Unlock()
+		return m, u
+	}
+	recycle := map[int][]*message.Message{}
 	topic := func(t int) string { return "t" + strconv.Itoa(t) }
 	b01 := func(x bool) string {
 		if x {
@@ -164,9 +181,21 @@ func Run(sc Scenario) *Result {
 		us := make([]string, batch)
 		for i := range msgs {
 			var u int
-			msgs[i], u = newMsg()
+			// every fourth call of a publisher thread recycles the message objects of its previous call: same objects,
+			// new UUID, whatever payload and metadata they have by now (Publish must treat them like any other message)
+			mu.Lock()
+			old := recycle[thread]
+			mu.Unlock()
+			if pid%4 == 0 && i < len(old) {
+				msgs[i], u = reMsg(old[i])
+			} else {
+				msgs[i], u = newMsg()
+			}
 			us[i] = strconv.Itoa(u)
 		}
+		mu.Lock()
+		recycle[thread] = msgs
+		mu.Unlock()
 		rec.Log("pc", itoa(pid), itoa(t), strings.Join(us, "+"), itoa(thread))
 		atomic.AddInt64(&pubStarted, 1)
 		out := "ok"
@@ -391,6 +420,12 @@ func Run(sc Scenario) *Result {
 	var closeDone []chan struct{}
 	closed := false
 	if park != nil {
+		if sc.ParkOp == "close2" {
+			// the hook lies on the path a Close call waits for: a first Close is started so that somebody gets there,
+			// the interfering operation is a second, overlapping Close
+			closeDone = append(closeDone, doClose(0))
+			closed = true
+		}
 		if park.WaitArrived(300 * time.Millisecond) {
 			rec.Log("note", "parked at "+sc.ParkHook+" running "+sc.ParkOp)
 			opDone := make(chan struct{})
@@ -399,6 +434,8 @@ func Run(sc Scenario) *Result {
 				switch sc.ParkOp {
 				case "close":
 					<-doClose(0)
+				case "close2":
+					<-doClose(1)
 				case "cancel0":
 					mu.Lock()
 					c := cancels[0]
